@@ -227,6 +227,10 @@ MALFORMED = ["", " ", "\n\t", "(", ")", "(a", "a)", "((a)", "[a TO", "[a TO b", 
              "now/d", "path:/var/log/syslog", "a / b", "/a\\/b/ c",
              # a byte order mark / zero-width characters at the start and after blanks (characters of a term)
              "\ufeffa", "\ufeff a", " \ufeffa b", "\ufeff", "\u200b a", "a \ufeff:b",
+             # typographic quotes (characters of a term today); a time-like word directly followed by further digits
+             "\u201cfoo bar\u201d", "title:\u201cfoo bar\u201d~2 AND x", "(\u201ca b\u201d OR \u201cc\u201d)^2", "a\u201cb\u201d", "\u2018a b\u2019",
+             "\u00abfoo bar\u00bb", "T12:305", "foo:2015-12-19T22:30:450", "a AND -2015-12-19T22:30:45123^2 b",
+             "[T10:001 TO T10:30:000]", "PORT80:8080", "T12:30", "T12:3", "xT12:30:5", "2015-12-19T22:30:45.123Z x",
              # comparisons whose bound begins with `=` (after a blank: nothing to disambiguate), escaped and quoted
              "< =test", "price:> =5", " tag:(>\t=a OR <\u00a0=b) ", "-<  =x AND y", ">= =5", "<\\=5", '<"=5"', "> =", "<=  =a",
              ">==5", "<==", "> =5^2", "f:< =a~1", "< \\=a",
